@@ -104,3 +104,28 @@ Example map_dispatch_abs_instance :
   real_map (build ex_mid, [(build ex_root, [99])]) [] (abs_key ex_up (page_key ex_page)) ex_ps = Ok ex_url /\
   map_at (build ex_root) [] [0%nat] [47; 99; 47; 100; 47; 113] ex_ps = Ok ex_url.
 Proof. vm_compute. repeat split; reflexivity. Qed.
+
+From CppcmsV Require Import C20.MapRel.
+Definition ex_page_mid : bytes * route * N := ([112], [RLit [47; 112; 47]; RPar cs_digits true], 2).
+Lemma ex_rchain_leaf : rchain ex_root [] ex_leaf ex_up [[99]; [100]].
+Proof.
+  exact (RCS ex_root [] ex_mid _ _ 0%nat ([100], [47; 100], ex_leaf)
+           (RCS ex_root [] ex_root [] [] 0%nat ([99], [47; 99], ex_mid) (RC0 ex_root []) eq_refl) eq_refl).
+Qed.
+Lemma ex_rchain_mid : rchain ex_root [] ex_mid [(build ex_root, [99])] [[99]].
+Proof. exact (RCS ex_root [] ex_root [] [] 0%nat ([99], [47; 99], ex_mid) (RC0 ex_root []) eq_refl). Qed.
+Lemma ex_rnames_ok : Forall rname_ok [[99]].
+Proof. repeat constructor. discriminate. Qed.
+Lemma ex_reach_mid : reach ex_root ([47; 99] ++ route_fill (page_route ex_page_mid) [[55]]) 2 [[55]].
+Proof.
+  eapply (ReachSub _ _ 0%nat [99] [47; 99] ex_mid); [reflexivity | | discriminate | reflexivity | | ].
+  - eapply (ReachPage _ _ 0%nat [112]); [reflexivity | reflexivity | reflexivity |]. intros j pg Hj. inversion Hj.
+  - intros pg H. in_cases; reflexivity.
+  - intros j x Hj. inversion Hj.
+Qed.
+(* ../../c/p used on the mapper of the leaf *)
+Example map_dispatch_rel_instance :
+  rel_key 2 [[99]] (page_key ex_page_mid) = [46; 46; 47; 46; 46; 47; 99; 47; 112] /\
+  real_map (build ex_leaf, ex_up) [] (rel_key 2 [[99]] (page_key ex_page_mid)) [[55]] = Ok [47; 99; 47; 112; 47; 55] /\
+  dispatch (build ex_root) [47; 99; 47; 112; 47; 55] None = Fired 2 [[55]].
+Proof. vm_compute. repeat split; reflexivity. Qed.
